@@ -290,6 +290,7 @@ static void worker_main(const Config &cfg, int k, long long first_run, int wfd, 
   int efd = open(errpath.c_str(), O_WRONLY | O_CREAT | O_TRUNC, 0644);
   if (efd >= 0) { dup2(efd, 2); close(efd); }
   g_phase_slot = &slot->phase;
+  const bool fresh_per_run = cfg.prop == "C18";
   auto send = [&](const std::string &s) { size_t off = 0; while (off < s.size()) { ssize_t w = write(wfd, s.data() + off, s.size() - off); if (w <= 0) _exit(3); off += (size_t)w; } };
   for (long long run = first_run; run < cfg.runs; run += cfg.workers) {
     if (now_s() > deadline) break;
@@ -297,7 +298,31 @@ static void worker_main(const Config &cfg, int k, long long first_run, int wfd, 
       slot->run = run; slot->sub = sub; slot->phase = PH_GEN; slot->started_ms = (long long)(now_s() * 1000);
       if (ftruncate(2, 0) == 0) lseek(2, 0, SEEK_SET);
       Plan p = gen_plan(cfg.prop, cfg.seed, run, sub, cfg.tier);
-      Outcome o = exec_plan(p, false);
+      Outcome o;
+      if (fresh_per_run) {
+        // the worker itself never calls the library: every run starts in a process without history
+        int pfd[2];
+        if (pipe(pfd) != 0) _exit(3);
+        pid_t pid = fork();
+        if (pid == 0) {
+          close(pfd[0]);
+          Outcome oc = exec_plan(p, false);
+          std::string l = oc.to_line() + "\n";
+          ssize_t w = write(pfd[1], l.data(), l.size()); (void)w;
+          _exit(0);
+        }
+        close(pfd[1]);
+        std::string buf; char tmp[65536]; ssize_t n;
+        while ((n = read(pfd[0], tmp, sizeof tmp)) > 0) buf.append(tmp, (size_t)n);
+        close(pfd[0]);
+        int st = 0; waitpid(pid, &st, 0);
+        if (!(WIFEXITED(st) && WEXITSTATUS(st) == 0) || buf.empty()) {
+          std::string werr; try { werr = read_file(errpath); } catch (...) {}
+          send("X " + std::to_string(run) + " " + std::to_string(sub) + " " + std::to_string((int)slot->phase) + " " + crash_site(werr) + "\n");
+          break;
+        }
+        o = Outcome::from_line(buf.substr(0, buf.find('\n')));
+      } else o = exec_plan(p, false);
       std::string line = "R " + std::to_string(run) + " " + std::to_string(sub) + " " + o.to_line();
       if (run < sample_runs * (long long)cfg.workers && sub == 0 && k == 0) { std::string b = plan_brief(p); Json jb(b); line += "\tS" + jb.dump(); }
       send(line + "\n");
@@ -377,6 +402,18 @@ int check_main(Config cfg) {
         std::string cls = o.prop + ":" + o.oracle;
         if (cand_per_class[cls]++ < 3) cands.push_back({run, sub, false, 0, o});
       }
+      ws[(size_t)k].last_run = run; ws[(size_t)k].last_progress = now_s();
+    } else if (line[0] == 'X') {
+      long long run, sub; int ph = 0; char site[256] = {0};
+      if (sscanf(line.c_str(), "X %lld %lld %d %255s", &run, &sub, &ph, site) < 3) return;
+      evaluations++;
+      std::string p = crash_property(ph, cfg.prop);
+      if (p == cfg.prop) {
+        std::string cls = std::string("crash:") + phase_name(ph) + "@" + site;
+        if (cand_per_class[cls]++ < 2) cands.push_back({run, sub, true, ph, Outcome()});
+        stats.inc("crash:" + std::string(phase_name(ph)));
+      } else if (p.empty()) { infra_errors++; fprintf(stderr, "[check] run %lld died outside a library phase (%s)\n", run, phase_name(ph)); }
+      else { foreign_crashes++; stats.inc(std::string("foreign_crash:") + p + ":" + phase_name(ph)); }
       ws[(size_t)k].last_run = run; ws[(size_t)k].last_progress = now_s();
     } else if (line[0] == 'H') { Hll h; h.from_hex(line.substr(2)); hll.merge(h); }
     else if (line[0] == 'Z') ws[(size_t)k].done = true;
